@@ -41,7 +41,7 @@ SPECS = [
     {'conv': 'cf2d', 'ny': 3, 'nx': 4, 'bounds': 'coords'},
     {'conv': 'cf1d', 'ny': 3, 'nx': 4, 'bounds': 'coords'},
 ]
-GEOMS = ['box centre', 'everything', 'edge hugging', 'multi', 'point', 'all but a border cell']
+GEOMS = ['box centre', 'everything', 'edge hugging', 'multi', 'point', 'all but a border cell', 'all but an interior cell']
 
 
 def _shared_parts(polys):
@@ -67,7 +67,18 @@ def geometries(ds):
         'parts sharing cells': _shared_parts(polys),
         # every cell but one on the border (not a corner): its outer side joins two nodes that survive although the side itself does not
         'all but a border cell': shapely.MultiPoint([p.representative_point() for n, p in enumerate(polys) if n != 1]),
+        # every cell but one in the interior: all its sides and corners belong to surviving neighbours, so no edge and no node is dropped while
+        # the faces are renumbered
+        'all but an interior cell': shapely.MultiPoint([p.representative_point() for n, p in enumerate(polys) if n != _interior(polys)]),
     }
+
+
+def _interior(polys):
+    u = shapely.unary_union(polys)
+    for n, p in enumerate(polys):
+        if p.buffer(1e-6).within(u):
+            return n
+    return 1
 
 
 def enrich(ds):
